@@ -342,6 +342,33 @@ def listing_case(ctx, rng, li):
                 ctx.violation('listing on %s cassette returned %d ids, reference %d (+%d unspecified)' % (
                     kind, len(got), len(must), len(may)), desc)
             ctx.count('listing_ids_compared', len(saved))
+        if kind == 'file' and saved:
+            # a recording file is replaced behind the back of the long-lived cassette object (restored from a backup, re-labelled by
+            # another process) and keeps its modification time (cp -p / rsync -t / coarse timestamps): lookups match what is stored NOW
+            import os
+            from playback.recordings.memory.memory_recording import MemoryRecording
+            from playback.tape_cassettes.file_based.file_based_tape_cassette import FileBasedTapeCassette
+            rid, old_view = saved[0]
+            path = reader._get_recording_file_path(rid)
+            st = os.stat(path)
+            r2 = MemoryRecording(rid)
+            r2.add_metadata({'k': 'relabelled', 'j': 7})
+            FileBasedTapeCassette(reader.directory).save_recording(r2)
+            os.utime(path, (st.st_atime, st.st_mtime))
+            saved[0] = (rid, {'k': 'relabelled', 'j': 7})
+            ctx.count('recording_files_replaced_keeping_their_mtime')
+            for flt in ({'k': 'relabelled'}, {'j': 7}, {k: copy.deepcopy(v) for k, v in old_view.items() if k in ('k', 'j') and not isinstance(v, list)} or {'k': 'x'}):
+                desc = {'cassette': kind, 'replaced_file': True, 'filter': flt}
+                ctx.case(desc)
+                try:
+                    got = list(reader.iter_recording_ids('Cat', metadata=flt))
+                except Exception as ex:
+                    ctx.violation('listing on file cassette aborted by %s after a recording file was replaced' % type(ex).__name__, desc)
+                    continue
+                must = set(r for r, v in saved if ref_match(flt, v) is True)
+                may = set(r for r, v in saved if ref_match(flt, v) == UNSPEC)
+                if not (must <= set(got) <= (must | may)):
+                    ctx.violation('listing on a long-lived file cassette still matches the metadata a replaced recording file held before', desc)
         # two lazily evaluated lookups with different filters in flight on ONE cassette object, consumed alternately
         for _ in range(3):
             flts = [matching_filter(), rng.choice([None, matching_filter(), {'k': gen_filter_value(rng)}])]
